@@ -1,5 +1,5 @@
 PROP = {
-    "thm": "Umya.Thm.C04",
+    "thm": ["Umya.Thm.C04", "Umya.Thm.C04Bytes"],
     "harness": "c04",
     "level": "proof",
     "stateful": True,
@@ -12,7 +12,7 @@ PROP = {
                   "hyperlink target is followed stored text -> raw attribute text in the file -> reloaded text against the model's attrWrite / attrRead.",
     "level_note": "Trusted: Lean kernel + 3 standard axioms; C01's and C12's models as tied by their own correspondence checks; the harness views. "
                   "Styles, annotations, drawings, print settings are compared between generations by the harness only (exploration).",
-    "expect_theorems": ["C04_channels_match_source", "C04_attr_channel", "C04_fixpoint_cells", "C04_save_pure", "C04_edit_local"],
+    "expect_theorems": ["C04_bytes_resave_stable", "C04_channels_match_source", "C04_attr_channel", "C04_fixpoint_cells", "C04_save_pure", "C04_edit_local"],
     "rule": "case = a generated annotated workbook (per-case seed) or a corpus file; three load/save generations, a second save of generation 1, one single-cell edit; "
             "attr requests = one per sheet name and external hyperlink target. non-trivial = attr requests and case headers; distinct = distinct request line",
     "trusted_base": TB_COMMON + ["models of C01 / C12 / XmlEsc (each tied by its own check)", "harness full_view over the public getters"],
